@@ -16,7 +16,10 @@ def run_alt(patch, name, checks, tier=None, keep=False, seed=None):
             d = subprocess.run(["git", "-C", wt, "show", patch[3:]], stdout=subprocess.PIPE, check=True).stdout
             subprocess.run(["git", "-C", wt, "apply", "-R"], input=d, check=True)
         elif patch:
-            subprocess.run(["git", "-C", wt, "apply", os.path.abspath(patch)], check=True)
+            if subprocess.run(["git", "-C", wt, "apply", os.path.abspath(patch)], stderr=subprocess.DEVNULL).returncode != 0:
+                # /repo has moved on since the change was written (later fix: commits): three-way merge against the blobs it names
+                subprocess.run(["git", "-C", wt, "apply", "-3", os.path.abspath(patch)], check=True)
+                print("(patch applied with a three-way merge)", flush=True)
         for c in checks:
             e = dict(env, VERIF_ALT_REPO=wt)
             if seed: e["VERIF_SEED"] = str(seed)
